@@ -901,7 +901,7 @@ def capture(scratch, unit, needle):
     scratch.write_cfg(True)
     try:
         r = core.run_kani(scratch, unit.name, group=unit.group, timeout=unit.timeout, mem_gb=unit.mem_gb, unwind_rules=unit.rules,
-                          extra_args=["--output-format", "old"], trace=True)
+                          extra_args=["--output-format", "old"] + core.lean_args(unit), trace=True)
     finally:
         scratch.write_cfg(False)
     sc = decode_dumps(r.log, needle)
